@@ -1533,7 +1533,12 @@ impl FixtureDatabase {
         let mut seen_cycles: HashSet<String> = HashSet::new(); // Deduplicate cycles
 
         // Iterative DFS using explicit stack
-        for start_fixture in dep_graph.keys() {
+        // Visit roots in sorted order: HashMap iteration order differs between runs, and the root
+        // order decides which fixture a cycle is reported on and in which order cycles are listed.
+        let mut start_fixtures: Vec<&String> = dep_graph.keys().collect();
+        start_fixtures.sort();
+
+        for start_fixture in start_fixtures {
             if visited.contains(start_fixture) {
                 continue;
             }
